@@ -712,6 +712,34 @@ class Gen:
                 else: raise Refuse('no code for ' + ct)
             w('  | W_%s %s => %d :: %s' % (n, ' '.join('a_' + a for a, _ in args), k, ' ++ '.join(parts) if parts else '[]'))
         w('  end.')
+        # codes for the IR side
+        w('Definition refty_code (r : refty) : N := match r with RT_Funcref => 0 | RT_Externref => 1 end.')
+        def fcode(rt, e):
+            ct = coq_type(rt); rt = rt.replace(' ', '')
+            if ct == 'N': return '[%s]' % e
+            if ct == 'Z': return '[z_code %s]' % e
+            if ct == 'bool': return '[if %s then 1 else 0]' % e
+            if ct == 'ir_memarg': return '[ia_align %s; ia_offset %s]' % (e, e)
+            if ct == '(option valty)': return '(match %s with Some t => [1; valty_code t] | None => [0] end)' % e
+            if ct == 'valty': return '[valty_code %s]' % e
+            if ct == 'refty': return '[refty_code %s]' % e
+            if ct == '(list N)': return '(N.of_nat (length %s) :: %s)' % (e, e)
+            if rt in COQTY: return '(%s_code %s)' % (COQTY[rt], e)
+            raise Refuse('no code for IR type ' + rt)
+        for name in ['ExtendedLoad', 'UnaryOp', 'BinaryOp', 'TernaryOp', 'LoadKind', 'StoreKind', 'AtomicOp', 'AtomicWidth', 'LoadSimdKind', 'Value']:
+            w('Definition %s_code (x : %s) : list N :=\n  match x with' % (COQTY[name], COQTY[name]))
+            for k, v in enumerate(self.ENUMS[name]):
+                fs = [(f if not f.startswith('_') else 'x' + f, t) for f, t, _ in v['fields']]
+                w('  | %s%s %s => %d :: %s' % (PFX[name], v['name'], ' '.join(f for f, _ in fs), k, ' ++ '.join(fcode(t, f) for f, t in fs) if fs else '[]'))
+            w('  end.')
+        w('Definition plain_code (p : plain) : list N :=\n  match p with')
+        k = 0
+        for v in self.ENUMS['Instr']:
+            if v['name'] in CONTROL_IR: continue
+            fs = [(f, t) for f, t, _ in v['fields']]
+            w('  | P_%s %s => %d :: %s' % (v['name'], ' '.join(f for f, _ in fs), k, ' ++ '.join(fcode(t, f) for f, t in fs) if fs else '[]'))
+            k += 1
+        w('  end.')
         w('Definition supported_op_count : N := %d.' % len(used_ops))
         return '\n'.join(out) + '\n'
 
